@@ -1294,7 +1294,7 @@ def _run_case(L, seed, i, tier, tmp):
         args += ["--cov-band", str(band)]
     name = "c%d" % i
     gA = xmlout.run_gama_local(txtA, tmp, name + "a", args=args, outputs=("xml", "text", "html", "octave", "svg"))
-    cls_main = (kind, "hostile " + cause, "band " + bandname, "angular " + c["angular"])
+    dimtag = "%dd" % net.dim
     if gA.rr.timeout:
         L.inconc("timeout")
         return
@@ -1305,7 +1305,8 @@ def _run_case(L, seed, i, tier, tmp):
         viol("gama-local:no-xml", "no XML written, rc=%s %s" % (gA.rc, gA.out[-200:]))
         return
     # ---- (1) well-formedness of the XML, strings carried
-    L.case(("xml",) + cls_main)
+    L.case(("xml", dimtag, "hostile " + cause))
+    L.cls(("run", kind, "band " + bandname, "angular " + c["angular"]))
     root, err = wellformed(xmlA)
     if err:
         viol("xml:ill-formed:" + cause, "the adjustment XML is not well-formed: %s | %s" % (err, _line_of(xmlA, err)))
@@ -1350,7 +1351,7 @@ def _run_case(L, seed, i, tier, tmp):
     # ---- (2) gama's own reader of the XML
     if ok:
         rr, J = readdrv("xml", os.path.join(tmp, name + "a.out.xml"))
-        L.case(("own-reader-xml",) + cls_main)
+        L.case(("own-reader-xml", "hostile " + cause, "band " + bandname))
         if not L.sanitizer(rr, dict(base, run="readdrv xml"), prefix="readdrv:xml:"):
             if J is None:
                 viol("own-reader:no-answer", "readdrv rc=%s %s" % (rr.rc, rr.err[-200:]))
@@ -1363,10 +1364,13 @@ def _run_case(L, seed, i, tier, tmp):
     if htmlA is None:
         viol("html:missing", "no HTML written")
     else:
-        L.case(("html", kind, "hostile " + cause, "angular " + c["angular"]))
+        L.case(("html", "hostile " + cause, "angular " + c["angular"]))
         hroot, herr = wellformed(htmlA, xhtml=True)
         if herr:
-            viol("html:ill-formed:" + cause, "the XHTML output is not well-formed: %s | %s" % (herr, _line_of(htmlA, herr)))
+            hc = cause
+            if c["place"] == "description" and c["desc"].lstrip().startswith("<"):
+                hc = "description:leading-lt"     # html.cpp copies a description that begins with '<' as HTML markup
+            viol("html:ill-formed:" + hc, "the XHTML output is not well-formed: %s | %s" % (herr, _line_of(htmlA, herr)))
         elif ok:
             try:
                 H = scrape_html(hroot)
@@ -1384,7 +1388,7 @@ def _run_case(L, seed, i, tier, tmp):
                         viol("cross:html:id:" + (ch[0] if ch else c["idcls"]),
                              "%s point ids in the HTML differ from the XML's: %r" % (nm, bad or (len(got), len(exp))))
             rr, J = readdrv("html", os.path.join(tmp, name + "a.out.html"))
-            L.case(("own-reader-html", kind, "hostile " + cause, "angular " + c["angular"]))
+            L.case(("own-reader-html", dimtag, "hostile " + cause, "angular " + c["angular"]))
             if not L.sanitizer(rr, dict(base, run="readdrv html"), prefix="readdrv:html:"):
                 if J is None:
                     viol("own-reader-html:no-answer", "readdrv rc=%s %s" % (rr.rc, rr.err[-200:]))
@@ -1395,7 +1399,7 @@ def _run_case(L, seed, i, tier, tmp):
     # ---- SVG
     svgA = gA.files.get("svg")
     if svgA is not None and net.dim >= 2:
-        L.case(("svg", kind, "hostile " + cause))
+        L.case(("svg", "hostile " + cause))
         sroot, serr = wellformed(svgA)
         if serr:
             viol("svg:ill-formed:" + cause, "the SVG output is not well-formed: %s | %s" % (serr, _line_of(svgA, serr)))
@@ -1408,7 +1412,7 @@ def _run_case(L, seed, i, tier, tmp):
     S = None
     textA = gA.files.get("text")
     if textA is not None and ok:
-        L.case(("text", kind, "hostile " + cause, "angular " + c["angular"], "en/utf-8"))
+        L.case(("text", kind, "angular " + c["angular"], "en/utf-8"))
         try:
             tx = textA.decode("utf-8")
         except UnicodeDecodeError as e:
@@ -1425,7 +1429,7 @@ def _run_case(L, seed, i, tier, tmp):
     # ---- octave
     octA = gA.files.get("octave")
     if octA is not None and ok:
-        L.case(("octave", kind, "hostile " + cause, c["alg"], "y-sign " + ysign(fr)))
+        L.case(("octave", dimtag, c["alg"], "y-sign " + ysign(fr), "sigma-act " + net.params["sigma_act"]))
         try:
             V, bad = parse_octave(octA.decode("utf-8"))
             cmp_octave(L, viol, V, bad, R, T, C, c)
@@ -1467,11 +1471,11 @@ def consumers(L, viol, c, base, tmp, name, txtB, args, RA):
     full = RA["cov_band"] == RA["cov_dim"] - 1
     for selfcmp, f2, R2 in ((True, fa, RA), (False, fb, RB)):
         rr = runner.run([runner.binpath("san", "compare-xyz"), fa, f2], timeout=120)
-        L.case(("compare-xyz", "self" if selfcmp else "two epochs", kind, "hostile " + _cause(c)))
+        L.case(("compare-xyz", "self" if selfcmp else "two epochs", kind))
         if not L.sanitizer(rr, dict(base, run="compare-xyz"), prefix="compare-xyz:"):
             check_compare_xyz(L, viol, rr.out, rr.rc, RA, R2, selfcmp, blank)
         rr = runner.run([runner.binpath("san", "gama-local-deformation"), fa, f2], timeout=120)
-        L.case(("deformation", "self" if selfcmp else "two epochs", kind, "hostile " + _cause(c),
+        L.case(("deformation", "self" if selfcmp else "two epochs", "%dd" % c["net"].dim,
                 "full cov" if full else "band " + c["band"][0]))
         w = dict(base, run="gama-local-deformation " + ("a a" if selfcmp else "a b"))
         if rr.san or rr.signaled or rr.rc in (134, 139):
@@ -1489,7 +1493,7 @@ def languages(L, viol, c, base, tmp, name, txtA, args, R, S):
     lang = c["lang"]
     ref = xmlout.run_gama_local(txtA, tmp, name + "l", args=args + ["--language", lang, "--encoding", "utf-8"],
                                 outputs=("text", "html"))
-    L.case(("text", c["net"].kind, "lang " + lang, "utf-8"))
+    L.case(("text-lang", lang, "utf-8", "representable"))
     if L.sanitizer(ref.rr, dict(base, run="language " + lang), prefix="gama-local:"):
         return
     tb = ref.files.get("text")
@@ -1539,7 +1543,7 @@ def languages(L, viol, c, base, tmp, name, txtA, args, R, S):
                 representable = True
             except UnicodeEncodeError:
                 representable = False
-        L.case(("text", "lang " + lang, enc, "representable" if representable else "not representable in the encoding"))
+        L.case(("text-lang", lang, enc, "representable" if representable else "not representable in the encoding"))
         if not representable:
             # the user asked for an encoding that cannot express the words / ids: only "runs and still carries
             # the numbers where they can be located" is demanded
@@ -1564,17 +1568,17 @@ def languages(L, viol, c, base, tmp, name, txtA, args, R, S):
         else:
             eb_, want = _sq(eb), _sq(want)
             if eb_ != want:
-                eb, eb_ = eb_, eb
-                k = next((j for j in range(min(len(eb), len(want))) if eb[j] != want[j]), min(len(eb), len(want)))
                 try:
-                    te = eb.decode(codec)
+                    td = eb_.decode(codec)
                 except UnicodeDecodeError as e:
                     viol("text:%s:undecodable" % enc, "output does not decode as %s (--language %s): %s" % (enc, lang, e))
                     continue
-                viol("text:%s:bytes" % enc, "output differs from the %s encoding of the UTF-8 output at byte %d: %r vs %r "
-                     "(--language %s; runs of blanks counted once)" % (
-                         enc, k, eb[max(0, k - 12):k + 12], want[max(0, k - 12):k + 12], lang))
-                eb = eb_
+                tw = _sq(tu)
+                k = next((j for j in range(min(len(td), len(tw))) if td[j] != tw[j]), min(len(td), len(tw)))
+                cp = "U+%04X" % ord(tw[k]) if k < len(tw) else "length"
+                viol("text:%s:bytes:%s" % (enc, cp), "output is not the %s encoding of the UTF-8 output of the same run: "
+                     "character %d is %r, expected %r (context %r; --language %s; runs of blanks counted once)" % (
+                         enc, k, td[k:k + 1], tw[k:k + 1], tw[max(0, k - 15):k + 10], lang))
             te = eb.decode(codec, "replace")
         try:
             Se = scrape_text(te, R)
@@ -1628,7 +1632,7 @@ def run(tier, seed, only=None):
         "tolerances = half a unit of the last printed digit of the less precise side + rounding of the other",
         "a text encoding that cannot represent the language's words or the ids (python codecs decide) is only required "
         "to run; representable ones must equal python's encoding of the UTF-8 output byte for byte"]
-    ck.minimum = dict(evaluations=tier_n(tier, 600, 15000), distinct=tier_n(tier, 150, 400))
+    ck.minimum = dict(evaluations=tier_n(tier, 600, 15000), distinct=tier_n(tier, 120, 250))
     return ck.finish()
 
 
